@@ -511,6 +511,12 @@ func init() {
 				c.dropModules("remember")
 			} else {
 				c.dropSetups("expire")
+				if r.Chance(1, 5) {
+					// an application that whitelists one of the keys that make
+					// the browser somebody (only without the expire module,
+					// which hands whitelisted keys to downstream handlers)
+					c.Whitelist = append(c.Whitelist, []string{"uid", "halfauth", "last_action"}[r.Intn(3)])
+				}
 			}
 			if r.Chance(2, 3) {
 				c.dropModules("lock")
